@@ -265,6 +265,17 @@ def gen_cases(tier, r):
                         continue
                     f = fields_of_us(us)
                     add({'k': 'new', 'tz': tz, 'args': f[:6] + [f[6] // 1000], 'lit': dl % 2 == 0}, 'transition-wall')
+            # d + n aimed INTO the wall-clock interval a forward change skips (and into the repeated interval of a backward one): d exists,
+            # the sum is the plain wall-clock sum, and (d + n) - d is n
+            lo, hi = sorted((t + oa, t + ob))
+            if hi > lo:
+                for back in (3600, 86400, 30 * 86400 + 1234, -7200, -86400):
+                    d_us = (lo - back) * 1000000
+                    if not MIN_US + 10**13 < d_us < MAX_US - 10**13:
+                        continue
+                    f = fields_of_us(d_us)
+                    n = back * 1000 + r.randrange((hi - lo) * 1000)
+                    add({'k': 'add', 'tz': tz, 'args': f[:6] + [f[6] // 1000], 'n': n, 'nfloat': back % 7 == 0}, 'add-into-transition')
             # a few values that are not whole milliseconds
             for base in (t + oa, t + ob):
                 add({'k': 'wall', 'tz': tz, 'us': base * 1000000 + r.choice([1, 499, 500, 999, 123456, 999999])}, 'wall-sub-ms')
